@@ -42,6 +42,8 @@ pub struct PDir {
     pub reader_waker: Option<Waker>,
     pub writer_waker: Option<Waker>,
     pub written: u64,
+    /// every byte that entered the direction, in order (the driver finds WebSocket frame boundaries / the Close frame in it)
+    pub wlog: Vec<u8>,
     pub consumed: u64,
     pub deliveries: u64,
     /// a write or flush of the sender was answered `Pending` while the direction was stalled (the send side is stuck for good)
@@ -144,6 +146,20 @@ impl BytePipe {
         };
         wake(r);
         wake(w);
+    }
+
+    /// Bytes appear on `dir` as if its sender's stack had sent them (a bare WebSocket frame at byte level); refused once
+    /// the sending side of the direction is closed.
+    pub fn inject(&self, dir: usize, bytes: &[u8]) -> bool {
+        let mut l = self.lock();
+        let d = &mut l.dirs[dir];
+        if d.wr_closed || d.reset {
+            return false;
+        }
+        d.inflight.extend_from_slice(bytes);
+        d.wlog.extend_from_slice(bytes);
+        d.written += bytes.len() as u64;
+        true
     }
 
     /// From now on nothing sent on `dir` arrives, and nobody is told.
@@ -252,6 +268,7 @@ impl AsyncWrite for PipeEnd {
         }
         let n = room.min(buf.len());
         d.inflight.extend_from_slice(&buf[..n]);
+        d.wlog.extend_from_slice(&buf[..n]);
         d.written += n as u64;
         Poll::Ready(Ok(n))
     }
